@@ -1088,6 +1088,16 @@ static std::string I_(long v)
     return "i:" + std::to_string(v);
 }
 
+// The generator builds its operands through the real library; whatever the library throws while doing so
+// (DomainError of sin(zoo), division by zero in a constructor ...) only skips that case.
+static long g_gen_skipped = 0;
+#define SAFE(stmt)                                                                                                     \
+    try {                                                                                                              \
+        stmt;                                                                                                          \
+    } catch (const std::exception &) {                                                                                 \
+        g_gen_skipped++;                                                                                               \
+    }
+
 static const char *ONE_FUNCS[] = {"expand", "neg", "abs", "erf", "erfc", "sin", "cos", "tan", "csc", "sec", "cot", "asin",
     "acos", "asec", "acsc", "atan", "acot", "sinh", "cosh", "tanh", "csch", "sech", "coth", "asinh", "acosh", "asech",
     "acsch", "atanh", "acoth", "lambertw", "zeta", "dirichlet_eta", "gamma", "loggamma", "sqrt", "cbrt", "exp", "log",
@@ -1105,257 +1115,307 @@ void hx_gen(Rng &r, const std::string &tier)
     bool th = tier == "thorough";
     int scale = th ? 8 : 1;
     // ---- reproducers of the recorded findings (always; see docs/C42.md)
-    {
+    try {
         B x = symbol("x");
         B U = interval(integer(0), integer(1), false, false)->set_union(interval(integer(2), integer(3), false, false));
         B F = finiteset({x});
-        emit("capi basic_dumps " + D(complexes()), "escape-repro");
-        emit("capi basic_set_is_subset " + D(F) + " " + D(U), "escape-repro");
-        emit("capi basic_set_is_proper_subset " + D(F) + " " + D(U), "escape-repro");
-        emit("capi basic_set_is_superset " + D(U) + " " + D(F), "escape-repro");
-        emit("capi basic_set_is_proper_superset " + D(U) + " " + D(F), "escape-repro");
-        emit("capi lambda_real_double_visitor_init i:0 i:0 " + D(x), "escape-repro");
-        emit("capi lambda_real_double_visitor_init i:1 i:0 " + D(x) + " " + D(function_symbol("f", x)), "escape-repro");
-        emit("capi basic_set_universalset", "result-repro");
-        emit("capif basic_parse s:a~&~b", "crash-repro");
-        emit("capif basic_parse2 s:2^x i:0", "crash-repro");
-        emit("capif rational_set_si i:1 i:0", "crash-repro");
-        emit("capif rational_set_ui i:1 i:0", "crash-repro");
+        SAFE(emit("capi basic_dumps " + D(complexes()), "escape-repro"));
+        SAFE(emit("capi basic_set_is_subset " + D(F) + " " + D(U), "escape-repro"));
+        SAFE(emit("capi basic_set_is_proper_subset " + D(F) + " " + D(U), "escape-repro"));
+        SAFE(emit("capi basic_set_is_superset " + D(U) + " " + D(F), "escape-repro"));
+        SAFE(emit("capi basic_set_is_proper_superset " + D(U) + " " + D(F), "escape-repro"));
+        SAFE(emit("capi lambda_real_double_visitor_init i:0 i:0 " + D(x), "escape-repro"));
+        SAFE(emit("capi lambda_real_double_visitor_init i:1 i:0 " + D(x) + " " + D(function_symbol("f", x)), "escape-repro"));
+        SAFE(emit("capi basic_set_universalset", "result-repro"));
+        SAFE(emit("capif basic_parse s:a~&~b", "crash-repro"));
+        SAFE(emit("capif basic_parse2 s:2^x i:0", "crash-repro"));
+        SAFE(emit("capif rational_set_si i:1 i:0", "crash-repro"));
+        SAFE(emit("capif rational_set_ui i:1 i:0", "crash-repro"));
         for (const char *f : {"mod", "quotient", "mod_f", "quotient_f", "quotient_mod", "quotient_mod_f"})
-            emit(std::string("capif ntheory_") + f + " 5 0", "crash-repro");
+            SAFE(emit(std::string("capif ntheory_") + f + " 5 0", "crash-repro"));
+    } catch (const std::exception &) {
+        g_gen_skipped++;
     }
     // ---- boundary cases with documented error codes / throwing C++
-    emit("capi basic_diff " + D(mul(symbol("x"), symbol("y"))) + " 3", "capi-throwing");
-    emit("capi basic_diff " + D(mul(symbol("x"), symbol("y"))) + " " + D(add(symbol("x"), one)), "capi-throwing");
-    emit("capi rational_set " + D(symbol("x")) + " 2", "capi-throwing");
-    emit("capi rational_set 3 0", "capi-throwing");
-    emit("capi rational_set 0 0", "capi-throwing");
-    emit("capi rational_set 1/2 3", "capi-throwing");
-    emit("capi basic_max", "capi-throwing");
-    emit("capi basic_min", "capi-throwing");
-    emit("capi basic_max " + D(I) + " 2", "capi-throwing");
-    emit("capi basic_evalf " + D(add(symbol("x"), one)) + " u:53 i:1", "capi-throwing");
-    emit("capi basic_evalf " + D(pi) + " u:200 i:1", "capi-throwing");
-    emit("capi basic_evalf " + D(pow(integer(-2), Rational::from_two_ints(*integer(1), *integer(2)))) + " u:53 i:1", "capi-throwing");
-    emit("capi basic_set_interval 3 1 i:0 i:0", "capi-throwing");
-    emit("capi basic_set_interval " + D(I) + " 4 i:0 i:0", "capi-throwing");
-    emit("capi basic_set_interval " + D(Inf) + " " + D(Inf) + " i:0 i:0", "capi-throwing");
-    emit("capi basic_set_sup " + D(emptyset()), "capi-throwing");
-    emit("capi basic_set_inf " + D(reals()), "capi-throwing");
-    emit("capi basic_set_sup " + D(finiteset({symbol("x"), one})), "capi-throwing");
-    emit("capi basic_solve_poly " + D(sin(symbol("x"))) + " " + D(symbol("x")), "capi-throwing");
-    emit("capi basic_solve_poly " + D(add(pow(symbol("x"), integer(5)), add(symbol("x"), one))) + " " + D(symbol("x")), "capi-throwing");
-    emit("capi dense_matrix_inv i:2 i:2 1 2 2 4", "capi-throwing");
-    emit("capi dense_matrix_inv i:2 i:3 1 2 3 4 5 6", "capi-throwing");
-    emit("capi dense_matrix_det i:2 i:3 1 2 3 4 5 6", "capi-throwing");
-    emit("capi dense_matrix_diff i:1 i:1 " + D(symbol("x")) + " 2", "capi-throwing");
-    emit("capi ntheory_binomial -3 u:2", "capi-ntheory");
-    emit("capi ntheory_mod_inverse 3 0", "capi-ntheory");
-    emit("capi ntheory_mod_inverse 2 4", "capi-ntheory");
-    emit("capi basic_subs " + D(add(symbol("x"), symbol("y"))) + " " + D(symbol("x")) + " " + D(symbol("y")) + " " + D(symbol("y")) + " " + D(symbol("x")), "capi-arith");
+    SAFE(emit("capi basic_diff " + D(mul(symbol("x"), symbol("y"))) + " 3", "capi-throwing"));
+    SAFE(emit("capi basic_diff " + D(mul(symbol("x"), symbol("y"))) + " " + D(add(symbol("x"), one)), "capi-throwing"));
+    SAFE(emit("capi rational_set " + D(symbol("x")) + " 2", "capi-throwing"));
+    SAFE(emit("capi rational_set 3 0", "capi-throwing"));
+    SAFE(emit("capi rational_set 0 0", "capi-throwing"));
+    SAFE(emit("capi rational_set 1/2 3", "capi-throwing"));
+    SAFE(emit("capi basic_max", "capi-throwing"));
+    SAFE(emit("capi basic_min", "capi-throwing"));
+    SAFE(emit("capi basic_max " + D(I) + " 2", "capi-throwing"));
+    SAFE(emit("capi basic_evalf " + D(add(symbol("x"), one)) + " u:53 i:1", "capi-throwing"));
+    SAFE(emit("capi basic_evalf " + D(pi) + " u:200 i:1", "capi-throwing"));
+    SAFE(emit("capi basic_evalf " + D(pow(integer(-2), Rational::from_two_ints(*integer(1), *integer(2)))) + " u:53 i:1", "capi-throwing"));
+    SAFE(emit("capi basic_set_interval 3 1 i:0 i:0", "capi-throwing"));
+    SAFE(emit("capi basic_set_interval " + D(I) + " 4 i:0 i:0", "capi-throwing"));
+    SAFE(emit("capi basic_set_interval " + D(Inf) + " " + D(Inf) + " i:0 i:0", "capi-throwing"));
+    SAFE(emit("capi basic_set_sup " + D(emptyset()), "capi-throwing"));
+    SAFE(emit("capi basic_set_inf " + D(reals()), "capi-throwing"));
+    SAFE(emit("capi basic_set_sup " + D(finiteset({symbol("x"), one})), "capi-throwing"));
+    SAFE(emit("capi basic_solve_poly " + D(sin(symbol("x"))) + " " + D(symbol("x")), "capi-throwing"));
+    SAFE(emit("capi basic_solve_poly " + D(add(pow(symbol("x"), integer(5)), add(symbol("x"), one))) + " " + D(symbol("x")), "capi-throwing"));
+    SAFE(emit("capi dense_matrix_inv i:2 i:2 1 2 2 4", "capi-throwing"));
+    SAFE(emit("capi dense_matrix_inv i:2 i:3 1 2 3 4 5 6", "capi-throwing"));
+    SAFE(emit("capi dense_matrix_det i:2 i:3 1 2 3 4 5 6", "capi-throwing"));
+    SAFE(emit("capi dense_matrix_diff i:1 i:1 " + D(symbol("x")) + " 2", "capi-throwing"));
+    SAFE(emit("capi ntheory_binomial -3 u:2", "capi-ntheory"));
+    SAFE(emit("capi ntheory_mod_inverse 3 0", "capi-ntheory"));
+    SAFE(emit("capi ntheory_mod_inverse 2 4", "capi-ntheory"));
+    SAFE(emit("capi basic_subs " + D(add(symbol("x"), symbol("y"))) + " " + D(symbol("x")) + " " + D(symbol("y")) + " " + D(symbol("y")) + " " + D(symbol("x")), "capi-arith"));
     for (const char *s : PARSE_STRS) {
-        emit("capi basic_parse " + enc(s), "capi-parse");
+        SAFE(emit("capi basic_parse " + enc(s), "capi-parse"));
         // convert_xor = 0 turns ^ into logical xor, which segfaults on non-Boolean operands (finding C42-K2)
         bool has_xor = std::string(s).find('^') != std::string::npos;
-        emit("capi basic_parse2 " + enc(s) + " i:" + std::to_string(has_xor ? 1 : r.below(2)), "capi-parse");
+        SAFE(emit("capi basic_parse2 " + enc(s) + " i:" + std::to_string(has_xor ? 1 : r.below(2)), "capi-parse"));
     }
     for (const char *s : INT_STRS)
-        emit("capi integer_set_str " + enc(s), "capi-parse");
+        SAFE(emit("capi integer_set_str " + enc(s), "capi-parse"));
     for (const char *c : {"basic_const_zero", "basic_const_one", "basic_const_minus_one", "basic_const_I", "basic_const_pi",
                           "basic_const_E", "basic_const_EulerGamma", "basic_const_Catalan", "basic_const_GoldenRatio",
                           "basic_const_infinity", "basic_const_neginfinity", "basic_const_complex_infinity", "basic_const_nan",
                           "bool_set_true", "bool_set_false", "basic_set_emptyset", "basic_set_complexes", "basic_set_reals",
                           "basic_set_rationals", "basic_set_integers"})
-        emit(std::string("capi ") + c, "capi-const");
-    emit("capi basic_const_set s:tau", "capi-const");
-    emit("capi symbol_set s:alpha", "capi-const");
-    emit("capi integer_set_si i:-9223372036854775807", "capi-const");
-    emit("capi integer_set_ui u:18446744073709551615", "capi-const");
-    emit("capi rational_set_si i:6 i:-4", "capi-const");
-    emit("capi rational_set_ui u:6 u:4", "capi-const");
-    emit("capi dense_matrix_eye i:2 i:3 i:1", "capi-matrix");
+        SAFE(emit(std::string("capi ") + c, "capi-const"));
+    SAFE(emit("capi basic_const_set s:tau", "capi-const"));
+    SAFE(emit("capi symbol_set s:alpha", "capi-const"));
+    SAFE(emit("capi integer_set_si i:-9223372036854775807", "capi-const"));
+    SAFE(emit("capi integer_set_ui u:18446744073709551615", "capi-const"));
+    SAFE(emit("capi rational_set_si i:6 i:-4", "capi-const"));
+    SAFE(emit("capi rational_set_ui u:6 u:4", "capi-const"));
+    SAFE(emit("capi dense_matrix_eye i:2 i:3 i:1", "capi-matrix"));
     // ---- random calls
     for (int n = 0; n < 60 * scale; n++) {
-        const char *f = ONE_FUNCS[r.below(sizeof ONE_FUNCS / sizeof *ONE_FUNCS)];
-        B a = r.coin(1, 4) ? gspecial(r) : gexpr(r, (int)r.below(3));
-        emit(std::string("capi basic_") + f + " " + D(a), "capi-onearg");
+        try {
+            const char *f = ONE_FUNCS[r.below(sizeof ONE_FUNCS / sizeof *ONE_FUNCS)];
+            B a = r.coin(1, 4) ? gspecial(r) : gexpr(r, (int)r.below(3));
+            emit(std::string("capi basic_") + f + " " + D(a), "capi-onearg");
+        } catch (const std::exception &) {
+            g_gen_skipped++;
+        }
     }
     for (int n = 0; n < 60 * scale; n++) {
-        const char *f = TWO_FUNCS[r.below(sizeof TWO_FUNCS / sizeof *TWO_FUNCS)];
-        B a = r.coin(1, 5) ? gspecial(r) : gexpr(r, (int)r.below(3));
-        B b = r.coin(1, 5) ? gspecial(r) : gexpr(r, (int)r.below(3));
-        emit(std::string("capi basic_") + f + " " + D(a) + " " + D(b), "capi-twoarg");
+        try {
+            const char *f = TWO_FUNCS[r.below(sizeof TWO_FUNCS / sizeof *TWO_FUNCS)];
+            B a = r.coin(1, 5) ? gspecial(r) : gexpr(r, (int)r.below(3));
+            B b = r.coin(1, 5) ? gspecial(r) : gexpr(r, (int)r.below(3));
+            emit(std::string("capi basic_") + f + " " + D(a) + " " + D(b), "capi-twoarg");
+        } catch (const std::exception &) {
+            g_gen_skipped++;
+        }
     }
     for (int n = 0; n < 30 * scale; n++) {
-        B e = gexpr(r, 1 + (int)r.below(3));
-        switch (r.below(12)) {
-            case 0: emit("capi basic_diff " + D(e) + " " + D(r.coin(1, 6) ? gexpr(r, 1) : gsym(r)), "capi-calculus"); break;
-            case 1: emit("capi basic_subs2 " + D(e) + " " + D(gsym(r)) + " " + D(gexpr(r, 1)), "capi-calculus"); break;
-            case 2: emit("capi basic_coeff " + D(e) + " " + D(gsym(r)) + " " + D(integer(r.range(0, 3))), "capi-calculus"); break;
-            case 3: emit("capi basic_as_numer_denom " + D(e), "capi-calculus"); break;
-            case 4: emit("capi basic_get_args " + D(e), "capi-calculus"); break;
-            case 5: emit("capi basic_free_symbols " + D(e), "capi-calculus"); break;
-            case 6: emit("capi basic_function_symbols " + D(add(e, function_symbol("f", gexpr(r, 1)))), "capi-calculus"); break;
-            case 7: if (is_a<Add>(*e)) emit("capi basic_add_as_two_terms " + D(e), "capi-calculus");
-                    else if (is_a<Mul>(*e)) emit("capi basic_mul_as_two_terms " + D(e), "capi-calculus");
-                    break;
-            case 8: emit("capi basic_evalf " + D(e->subs({{symbol("x"), integer(2)}, {symbol("y"), integer(3)}, {symbol("z"), one}}))
-                         + " u:53 i:" + std::to_string(r.below(3)), "capi-calculus"); break;
-            case 9: emit("capi basic_loads " + D(e) + " i:" + std::to_string(r.coin(1, 3) ? -1 : (long)r.below(60)), "capi-serial"); break;
-            case 10: emit("capi basic_dumps " + D(e), "capi-serial"); break;
-            default: emit("capi basic_assign " + D(e), "capi-calculus"); break;
+        try {
+            B e = gexpr(r, 1 + (int)r.below(3));
+            switch (r.below(12)) {
+                case 0: emit("capi basic_diff " + D(e) + " " + D(r.coin(1, 6) ? gexpr(r, 1) : gsym(r)), "capi-calculus"); break;
+                case 1: emit("capi basic_subs2 " + D(e) + " " + D(gsym(r)) + " " + D(gexpr(r, 1)), "capi-calculus"); break;
+                case 2: emit("capi basic_coeff " + D(e) + " " + D(gsym(r)) + " " + D(integer(r.range(0, 3))), "capi-calculus"); break;
+                case 3: emit("capi basic_as_numer_denom " + D(e), "capi-calculus"); break;
+                case 4: emit("capi basic_get_args " + D(e), "capi-calculus"); break;
+                case 5: emit("capi basic_free_symbols " + D(e), "capi-calculus"); break;
+                case 6: emit("capi basic_function_symbols " + D(add(e, function_symbol("f", gexpr(r, 1)))), "capi-calculus"); break;
+                case 7: if (is_a<Add>(*e)) emit("capi basic_add_as_two_terms " + D(e), "capi-calculus");
+                        else if (is_a<Mul>(*e)) emit("capi basic_mul_as_two_terms " + D(e), "capi-calculus");
+                        break;
+                case 8: emit("capi basic_evalf " + D(e->subs({{symbol("x"), integer(2)}, {symbol("y"), integer(3)}, {symbol("z"), one}}))
+                             + " u:53 i:" + std::to_string(r.below(3)), "capi-calculus"); break;
+                case 9: emit("capi basic_loads " + D(e) + " i:" + std::to_string(r.coin(1, 3) ? -1 : (long)r.below(60)), "capi-serial"); break;
+                case 10: emit("capi basic_dumps " + D(e), "capi-serial"); break;
+                default: emit("capi basic_assign " + D(e), "capi-calculus"); break;
+            }
+        } catch (const std::exception &) {
+            g_gen_skipped++;
         }
     }
     for (int n = 0; n < 25 * scale; n++) {
-        B e = r.coin(1, 5) ? gspecial(r) : r.coin(1, 6) ? gset(r) : gexpr(r, (int)r.below(3));
-        emit(std::string("capi ") + STR_FUNCS[r.below(8)] + " " + D(e), "capi-str");
-        B e2 = r.coin(1, 3) ? e : gexpr(r, (int)r.below(2));
-        switch (r.below(6)) {
-            case 0: emit("capi basic_eq " + D(e) + " " + D(e2), "capi-pred"); break;
-            case 1: emit("capi basic_neq " + D(e) + " " + D(e2), "capi-pred"); break;
-            case 2: emit("capi basic_hash " + D(e), "capi-pred"); break;
-            case 3: emit("capi basic_get_type " + D(e), "capi-pred"); break;
-            case 4: emit("capi basic_has_symbol " + D(e) + " " + D(gsym(r)), "capi-pred"); break;
-            default: {
-                static const char *isa[] = {"is_a_Number", "is_a_Integer", "is_a_Rational", "is_a_Symbol", "is_a_Complex",
-                                            "is_a_RealDouble", "is_a_ComplexDouble", "is_a_Set"};
-                emit(std::string("capi ") + isa[r.below(8)] + " " + D(e), "capi-pred");
+        try {
+            B e = r.coin(1, 5) ? gspecial(r) : r.coin(1, 6) ? gset(r) : gexpr(r, (int)r.below(3));
+            emit(std::string("capi ") + STR_FUNCS[r.below(8)] + " " + D(e), "capi-str");
+            B e2 = r.coin(1, 3) ? e : gexpr(r, (int)r.below(2));
+            switch (r.below(6)) {
+                case 0: emit("capi basic_eq " + D(e) + " " + D(e2), "capi-pred"); break;
+                case 1: emit("capi basic_neq " + D(e) + " " + D(e2), "capi-pred"); break;
+                case 2: emit("capi basic_hash " + D(e), "capi-pred"); break;
+                case 3: emit("capi basic_get_type " + D(e), "capi-pred"); break;
+                case 4: emit("capi basic_has_symbol " + D(e) + " " + D(gsym(r)), "capi-pred"); break;
+                default: {
+                    static const char *isa[] = {"is_a_Number", "is_a_Integer", "is_a_Rational", "is_a_Symbol", "is_a_Complex",
+                                                "is_a_RealDouble", "is_a_ComplexDouble", "is_a_Set"};
+                    emit(std::string("capi ") + isa[r.below(8)] + " " + D(e), "capi-pred");
+                }
             }
-        }
-        B nn = r.coin() ? gspecial(r) : gnum(r);
-        static const char *np[] = {"number_is_zero", "number_is_negative", "number_is_positive", "number_is_complex"};
-        emit(std::string("capi ") + np[r.below(4)] + " " + D(nn), "capi-pred");
-    }
-    for (int n = 0; n < 30 * scale; n++) {
-        static const char *nt[] = {"gcd", "lcm", "mod", "quotient", "mod_f", "quotient_f", "quotient_mod", "quotient_mod_f", "gcd_ext", "mod_inverse"};
-        const char *f = nt[r.below(10)];
-        bool nz = std::string(f) != "gcd" && std::string(f) != "lcm" && std::string(f) != "gcd_ext";
-        emit(std::string("capi ntheory_") + f + " " + D(gint(r, false)) + " " + D(gint(r, nz)), "capi-ntheory");
-        switch (r.below(5)) {
-            case 0: emit("capi ntheory_nextprime " + D(gint(r, false)), "capi-ntheory"); break;
-            case 1: emit("capi ntheory_binomial " + D(integer(r.range(-5, 40))) + " u:" + std::to_string(r.below(12)), "capi-ntheory"); break;
-            case 2: emit(std::string("capi ntheory_") + (r.coin() ? "fibonacci" : "lucas") + " u:" + std::to_string(r.below(90)), "capi-ntheory"); break;
-            case 3: emit(std::string("capi ntheory_") + (r.coin() ? "fibonacci2" : "lucas2") + " u:" + std::to_string(1 + r.below(90)), "capi-ntheory"); break;
-            default: emit("capi ntheory_factorial u:" + std::to_string(r.below(30)), "capi-ntheory"); break;
+            B nn = r.coin() ? gspecial(r) : gnum(r);
+            static const char *np[] = {"number_is_zero", "number_is_negative", "number_is_positive", "number_is_complex"};
+            emit(std::string("capi ") + np[r.below(4)] + " " + D(nn), "capi-pred");
+        } catch (const std::exception &) {
+            g_gen_skipped++;
         }
     }
     for (int n = 0; n < 30 * scale; n++) {
-        B s1 = gset(r), s2 = gset(r);
-        static const char *s2f[] = {"union", "intersection", "complement", "is_subset", "is_proper_subset", "is_superset", "is_proper_superset"};
-        static const char *s1f[] = {"inf", "sup", "boundary", "interior", "closure"};
-        switch (r.below(4)) {
-            case 0: case 1: emit(std::string("capi basic_set_") + s2f[r.below(7)] + " " + D(s1) + " " + D(s2), "capi-sets"); break;
-            case 2: emit(std::string("capi basic_set_") + s1f[r.below(5)] + " " + D(r.coin(1, 5) ? B(reals()) : r.coin(1, 5) ? B(integers()) : s1), "capi-sets"); break;
-            default: emit("capi basic_set_contains " + D(s1) + " " + D(r.coin() ? gnum(r) : gsym(r)), "capi-sets"); break;
+        try {
+            static const char *nt[] = {"gcd", "lcm", "mod", "quotient", "mod_f", "quotient_f", "quotient_mod", "quotient_mod_f", "gcd_ext", "mod_inverse"};
+            const char *f = nt[r.below(10)];
+            bool nz = std::string(f) != "gcd" && std::string(f) != "lcm" && std::string(f) != "gcd_ext";
+            emit(std::string("capi ntheory_") + f + " " + D(gint(r, false)) + " " + D(gint(r, nz)), "capi-ntheory");
+            switch (r.below(5)) {
+                case 0: emit("capi ntheory_nextprime " + D(gint(r, false)), "capi-ntheory"); break;
+                case 1: emit("capi ntheory_binomial " + D(integer(r.range(-5, 40))) + " u:" + std::to_string(r.below(12)), "capi-ntheory"); break;
+                case 2: emit(std::string("capi ntheory_") + (r.coin() ? "fibonacci" : "lucas") + " u:" + std::to_string(r.below(90)), "capi-ntheory"); break;
+                case 3: emit(std::string("capi ntheory_") + (r.coin() ? "fibonacci2" : "lucas2") + " u:" + std::to_string(1 + r.below(90)), "capi-ntheory"); break;
+                default: emit("capi ntheory_factorial u:" + std::to_string(r.below(30)), "capi-ntheory"); break;
+            }
+        } catch (const std::exception &) {
+            g_gen_skipped++;
         }
-        if (r.coin(1, 3)) {
-            std::string l = "capi basic_set_finiteset";
-            for (int k = (int)r.below(5); k > 0; k--) l += " " + D(r.coin() ? gnum(r) : gexpr(r, 1));
-            emit(l, "capi-sets");
-        }
-        if (r.coin(1, 3)) {
-            long a = r.range(-4, 4), b = r.range(-4, 6);
-            emit("capi basic_set_interval " + std::to_string(a) + " " + std::to_string(b) + " i:" + std::to_string(r.below(2)) + " i:" + std::to_string(r.below(2)), "capi-sets");
+    }
+    for (int n = 0; n < 30 * scale; n++) {
+        try {
+            B s1 = gset(r), s2 = gset(r);
+            static const char *s2f[] = {"union", "intersection", "complement", "is_subset", "is_proper_subset", "is_superset", "is_proper_superset"};
+            static const char *s1f[] = {"inf", "sup", "boundary", "interior", "closure"};
+            switch (r.below(4)) {
+                case 0: case 1: emit(std::string("capi basic_set_") + s2f[r.below(7)] + " " + D(s1) + " " + D(s2), "capi-sets"); break;
+                case 2: emit(std::string("capi basic_set_") + s1f[r.below(5)] + " " + D(r.coin(1, 5) ? B(reals()) : r.coin(1, 5) ? B(integers()) : s1), "capi-sets"); break;
+                default: emit("capi basic_set_contains " + D(s1) + " " + D(r.coin() ? gnum(r) : gsym(r)), "capi-sets"); break;
+            }
+            if (r.coin(1, 3)) {
+                std::string l = "capi basic_set_finiteset";
+                for (int k = (int)r.below(5); k > 0; k--) l += " " + D(r.coin() ? gnum(r) : gexpr(r, 1));
+                emit(l, "capi-sets");
+            }
+            if (r.coin(1, 3)) {
+                long a = r.range(-4, 4), b = r.range(-4, 6);
+                emit("capi basic_set_interval " + std::to_string(a) + " " + std::to_string(b) + " i:" + std::to_string(r.below(2)) + " i:" + std::to_string(r.below(2)), "capi-sets");
+            }
+        } catch (const std::exception &) {
+            g_gen_skipped++;
         }
     }
     for (int n = 0; n < 20 * scale; n++) {
-        static const char *vf[] = {"basic_max", "basic_min", "basic_add_vec", "basic_mul_vec"};
-        unsigned k = r.below(4);
-        std::string l = std::string("capi ") + vf[k];
-        for (int j = (int)r.below(5); j > 0; j--) l += " " + D(k < 2 ? (r.coin(1, 8) ? gsym(r) : gnum(r)) : gexpr(r, 1));
-        emit(l, "capi-vecfn");
-        if (r.coin(1, 3)) {
-            std::string c = "capi basic_cse";
-            B sub = gexpr(r, 1);
-            for (int j = 1 + (int)r.below(3); j > 0; j--) c += " " + D(add(mul(sub, gexpr(r, 1)), sin(sub)));
-            emit(c, "capi-vecfn");
-        }
-        if (r.coin(1, 3)) {
-            B x = symbol("x"), y = symbol("y");
-            B e1 = add(add(mul(integer(r.range(1, 5)), x), mul(integer(r.range(-5, 5)), y)), integer(r.range(-9, 9)));
-            B e2 = add(add(mul(integer(r.range(-5, 5)), x), mul(integer(r.range(1, 5)), y)), integer(r.range(-9, 9)));
-            emit("capi vecbasic_linsolve i:2 " + D(e1) + " " + D(e2) + " " + D(x) + " " + D(y), "capi-vecfn");
-        }
-        if (r.coin(1, 3)) {
-            B x = symbol("x");
-            B p = add(add(mul(integer(r.range(1, 3)), pow(x, integer(r.range(2, 3)))), mul(integer(r.range(-5, 5)), x)), integer(r.range(-6, 6)));
-            emit("capi basic_solve_poly " + D(p) + " " + D(x), "capi-vecfn");
-        }
-        if (r.coin(1, 2)) {
-            unsigned na = 1 + (unsigned)r.below(2);
-            std::string l2 = "capi lambda_real_double_visitor_init i:" + std::to_string(na) + " i:" + std::to_string(r.below(2));
-            l2 += " " + D(symbol("x"));
-            if (na == 2) l2 += " " + D(symbol("y"));
-            for (int j = 1 + (int)r.below(2); j > 0; j--) {
-                B e = gexpr(r, 2);
-                e = e->subs({{symbol("z"), integer(2)}, {I, integer(3)}});
-                if (na == 1) e = e->subs({{symbol("y"), integer(5)}});
-                l2 += " " + D(e);
+        try {
+            static const char *vf[] = {"basic_max", "basic_min", "basic_add_vec", "basic_mul_vec"};
+            unsigned k = r.below(4);
+            std::string l = std::string("capi ") + vf[k];
+            for (int j = (int)r.below(5); j > 0; j--) l += " " + D(k < 2 ? (r.coin(1, 8) ? gsym(r) : gnum(r)) : gexpr(r, 1));
+            emit(l, "capi-vecfn");
+            if (r.coin(1, 3)) {
+                std::string c = "capi basic_cse";
+                B sub = gexpr(r, 1);
+                for (int j = 1 + (int)r.below(3); j > 0; j--) c += " " + D(add(mul(sub, gexpr(r, 1)), sin(sub)));
+                emit(c, "capi-vecfn");
             }
-            emit(l2, "capi-lambda");
+            if (r.coin(1, 3)) {
+                B x = symbol("x"), y = symbol("y");
+                B e1 = add(add(mul(integer(r.range(1, 5)), x), mul(integer(r.range(-5, 5)), y)), integer(r.range(-9, 9)));
+                B e2 = add(add(mul(integer(r.range(-5, 5)), x), mul(integer(r.range(1, 5)), y)), integer(r.range(-9, 9)));
+                emit("capi vecbasic_linsolve i:2 " + D(e1) + " " + D(e2) + " " + D(x) + " " + D(y), "capi-vecfn");
+            }
+            if (r.coin(1, 3)) {
+                B x = symbol("x");
+                B p = add(add(mul(integer(r.range(1, 3)), pow(x, integer(r.range(2, 3)))), mul(integer(r.range(-5, 5)), x)), integer(r.range(-6, 6)));
+                emit("capi basic_solve_poly " + D(p) + " " + D(x), "capi-vecfn");
+            }
+            if (r.coin(1, 2)) {
+                unsigned na = 1 + (unsigned)r.below(2);
+                std::string l2 = "capi lambda_real_double_visitor_init i:" + std::to_string(na) + " i:" + std::to_string(r.below(2));
+                l2 += " " + D(symbol("x"));
+                if (na == 2) l2 += " " + D(symbol("y"));
+                for (int j = 1 + (int)r.below(2); j > 0; j--) {
+                    B e = gexpr(r, 2);
+                    e = e->subs({{symbol("z"), integer(2)}, {I, integer(3)}});
+                    if (na == 1) e = e->subs({{symbol("y"), integer(5)}});
+                    l2 += " " + D(e);
+                }
+                emit(l2, "capi-lambda");
+            }
+        } catch (const std::exception &) {
+            g_gen_skipped++;
         }
     }
     for (int n = 0; n < 16 * scale; n++) {
-        static const char *mf[] = {"det", "inv", "transpose", "mul_matrix", "add_matrix", "mul_scalar", "add_scalar", "diff", "FFLU", "str", "eq", "get_basic"};
-        unsigned k = r.below(12);
-        unsigned dim = 1 + (unsigned)r.below(3);
-        std::string l = std::string("capi dense_matrix_") + mf[k] + " i:" + std::to_string(dim) + " i:" + std::to_string(dim);
-        if (k == 11) l += " i:" + std::to_string(r.below(dim)) + " i:" + std::to_string(r.below(dim));
-        for (unsigned j = 0; j < dim * dim; j++) l += " " + D(r.coin(1, 4) ? gexpr(r, 1) : B(integer(r.range(-4, 4))));
-        if (k == 5 || k == 6) l += " " + D(gexpr(r, 1));
-        if (k == 7) l += " " + D(r.coin(1, 8) ? B(integer(2)) : gsym(r));
-        emit(l, "capi-matrix");
+        try {
+            static const char *mf[] = {"det", "inv", "transpose", "mul_matrix", "add_matrix", "mul_scalar", "add_scalar", "diff", "FFLU", "str", "eq", "get_basic"};
+            unsigned k = r.below(12);
+            unsigned dim = 1 + (unsigned)r.below(3);
+            std::string l = std::string("capi dense_matrix_") + mf[k] + " i:" + std::to_string(dim) + " i:" + std::to_string(dim);
+            if (k == 11) l += " i:" + std::to_string(r.below(dim)) + " i:" + std::to_string(r.below(dim));
+            for (unsigned j = 0; j < dim * dim; j++) l += " " + D(r.coin(1, 4) ? gexpr(r, 1) : B(integer(r.range(-4, 4))));
+            if (k == 5 || k == 6) l += " " + D(gexpr(r, 1));
+            if (k == 7) l += " " + D(r.coin(1, 8) ? B(integer(2)) : gsym(r));
+            emit(l, "capi-matrix");
+        } catch (const std::exception &) {
+            g_gen_skipped++;
+        }
     }
     // ---- container histories
     auto gel = [&]() { return D(r.coin(2, 3) ? (r.coin() ? gsym(r) : B(integer(r.range(-3, 3)))) : gexpr(r, 1)); };
     for (int n = 0; n < 25 * scale; n++) {
-        Strs ops;
-        int len = 1 + (int)r.below(th ? 30 : 12), sz = 0;
-        for (int i = 0; i < len; i++) {
-            unsigned k = r.below(10);
-            auto idx = [&]() { return std::to_string(r.coin(1, 7) ? sz + (int)r.below(3) : (sz ? (int)r.below(sz) : 0)); };
-            if (k < 4 || sz == 0) { ops.push_back("push " + gel()); sz++; }
-            else if (k < 6) ops.push_back("get " + idx());
-            else if (k < 7) ops.push_back("set " + idx() + " " + gel());
-            else if (k < 9) { std::string ix = idx(); if (std::stoi(ix) < sz) sz--; ops.push_back("erase " + ix); }
-            else ops.push_back("size");
+        try {
+            Strs ops;
+            int len = 1 + (int)r.below(th ? 30 : 12), sz = 0;
+            for (int i = 0; i < len; i++) {
+                unsigned k = r.below(10);
+                auto idx = [&]() { return std::to_string(r.coin(1, 7) ? sz + (int)r.below(3) : (sz ? (int)r.below(sz) : 0)); };
+                if (k < 4 || sz == 0) { ops.push_back("push " + gel()); sz++; }
+                else if (k < 6) ops.push_back("get " + idx());
+                else if (k < 7) ops.push_back("set " + idx() + " " + gel());
+                else if (k < 9) { std::string ix = idx(); if (std::stoi(ix) < sz) sz--; ops.push_back("erase " + ix); }
+                else ops.push_back("size");
+            }
+            emit("vec " + join(ops, ";"), "vec");
+        } catch (const std::exception &) {
+            g_gen_skipped++;
         }
-        emit("vec " + join(ops, ";"), "vec");
     }
     for (int n = 0; n < 25 * scale; n++) {
-        Strs ops;
-        int len = 1 + (int)r.below(th ? 30 : 12);
-        for (int i = 0; i < len; i++) {
-            unsigned k = r.below(10);
-            if (k < 4) ops.push_back("insert " + gel());
-            else if (k < 6) ops.push_back("find " + gel());
-            else if (k < 8) ops.push_back("erase " + gel());
-            else if (k < 9) ops.push_back("size");
-            else ops.push_back("all");
+        try {
+            Strs ops;
+            int len = 1 + (int)r.below(th ? 30 : 12);
+            for (int i = 0; i < len; i++) {
+                unsigned k = r.below(10);
+                if (k < 4) ops.push_back("insert " + gel());
+                else if (k < 6) ops.push_back("find " + gel());
+                else if (k < 8) ops.push_back("erase " + gel());
+                else if (k < 9) ops.push_back("size");
+                else ops.push_back("all");
+            }
+            ops.push_back("all");
+            emit("set " + join(ops, ";"), "set");
+        } catch (const std::exception &) {
+            g_gen_skipped++;
         }
-        ops.push_back("all");
-        emit("set " + join(ops, ";"), "set");
     }
     for (int n = 0; n < 25 * scale; n++) {
-        Strs ops;
-        int len = 1 + (int)r.below(th ? 30 : 12);
-        for (int i = 0; i < len; i++) {
-            unsigned k = r.below(10);
-            if (k < 5) ops.push_back("insert " + gel() + " " + gel());
-            else if (k < 9) ops.push_back("get " + gel());
-            else ops.push_back("size");
+        try {
+            Strs ops;
+            int len = 1 + (int)r.below(th ? 30 : 12);
+            for (int i = 0; i < len; i++) {
+                unsigned k = r.below(10);
+                if (k < 5) ops.push_back("insert " + gel() + " " + gel());
+                else if (k < 9) ops.push_back("get " + gel());
+                else ops.push_back("size");
+            }
+            ops.push_back("size");
+            emit("map " + join(ops, ";"), "map");
+        } catch (const std::exception &) {
+            g_gen_skipped++;
         }
-        ops.push_back("size");
-        emit("map " + join(ops, ";"), "map");
     }
     for (int n = 0; n < 8 * scale; n++) {
-        Strs ops;
-        int len = 1 + (int)r.below(12), sz = 0;
-        for (int i = 0; i < len; i++) {
-            if (r.coin() || sz == 0) { ops.push_back("push " + std::to_string(r.range(-2147483647L, 2147483647L))); sz++; }
-            else ops.push_back("get " + std::to_string(r.coin(1, 8) ? sz + 1 : (int)r.below(sz)));
+        try {
+            Strs ops;
+            int len = 1 + (int)r.below(12), sz = 0;
+            for (int i = 0; i < len; i++) {
+                if (r.coin() || sz == 0) { ops.push_back("push " + std::to_string(r.range(-2147483647L, 2147483647L))); sz++; }
+                else ops.push_back("get " + std::to_string(r.coin(1, 8) ? sz + 1 : (int)r.below(sz)));
+            }
+            emit("vint " + join(ops, ";"), "vint");
+        } catch (const std::exception &) {
+            g_gen_skipped++;
         }
-        emit("vint " + join(ops, ";"), "vint");
     }
     // ---- Expression wrapper
     static const char *eops[][2] = {{"operator+", "EE"}, {"operator+", "BE"}, {"operator+", "EB"}, {"operator+=", "E"}, {"operator+=", "B"},
@@ -1366,12 +1426,18 @@ void hx_gen(Rng &r, const std::string &tier)
         {"pow", "EE"}, {"expand", "E"}, {"diff", "Sb"}, {"diff", "Bb"}, {"subs", "M"}};
     for (int n = 0; n < 3 * scale; n++)
         for (auto &eo : eops) {
-            B a = r.coin(1, 6) ? gspecial(r) : gexpr(r, (int)r.below(3));
-            B b = r.coin(1, 6) ? gspecial(r) : r.coin(1, 5) ? a : gexpr(r, (int)r.below(3));
-            std::string op = eo[0], k = eo[1];
-            if (op == "diff" || op == "subs") b = gsym(r);
-            std::string l = "expr " + op + " " + k + " " + D(a) + " " + D(b);
-            if (op == "subs") l += " " + D(gexpr(r, 1));
-            emit(l, "expr");
+            try {
+                B a = r.coin(1, 6) ? gspecial(r) : gexpr(r, (int)r.below(3));
+                B b = r.coin(1, 6) ? gspecial(r) : r.coin(1, 5) ? a : gexpr(r, (int)r.below(3));
+                std::string op = eo[0], k = eo[1];
+                if (op == "diff" || op == "subs") b = gsym(r);
+                std::string l = "expr " + op + " " + k + " " + D(a) + " " + D(b);
+                if (op == "subs") l += " " + D(gexpr(r, 1));
+                emit(l, "expr");
+            } catch (const std::exception &) {
+                g_gen_skipped++;
+            }
         }
+    if (g_gen_skipped)
+        std::cerr << "c42 gen: " << g_gen_skipped << " case(s) skipped because the library threw while building the operands\n";
 }
